@@ -115,6 +115,11 @@ Ltac case_on s :=
           | _ => destruct s eqn:?
           end ].
 
+Ltac replace_eq a b := replace a with b by (solve [meq_leaf]).
+Ltac align_blocked s1 s2 :=
+  tryif first [ constr_eq s1 s2 | is_value s2 ] then idtac
+  else (try replace_eq s2 s1).
+
 (* msim: goal  m1 ds = m2 ds.  `reshapes` is a tactic that, given the two loop terms (left, right), may
    replace the left one (used when the two state tuples are arranged differently). *)
 Ltac msim_with reshape :=
@@ -142,7 +147,11 @@ Ltac msim_with reshape :=
                 case_on s''; msim_with reshape
             | _ => case_on s'; msim_with reshape
             end
-        | _ => case_on s; msim_with reshape
+        | _ =>
+            (* the right-hand side may be blocked on the same term written differently (i + b + 1 / b + i + 1) *)
+            let s' := scrut r in
+            align_blocked s s';
+            case_on s; msim_with reshape
         end
   end.
 
